@@ -433,26 +433,139 @@ theorem part_ok (k : PKind) (s : PState) (r : Rec) (n : Int) (mapping : List Int
     obtain ⟨s', p, e, h0, h1⟩ := ub_ok c hk s r n mapping (draws.headD 0) hn hn2 hl
     exact ⟨.ub s', p, by simp only [PKind.partitionN, e], trivial, h0, h1⟩
 
-theorem run_ok (k : PKind) (hk : KindOk k) : ∀ (ops : List Op) (s : PState), Inv k s → (∀ op ∈ ops, OpValid k op) →
-    ∃ picks, k.run s ops = some picks ∧ ∀ np ∈ picks, 0 ≤ np.2 ∧ np.2 < np.1 := by
+/-- the hasher consulted for keyed records (`none` for partitioners without key logic). -/
+def kindHasher : PKind → Hasher
+  | .stickyKey h => h
+  | .uniformBytes c => c.hasher
+  | _ => fun _ _ => none
+
+/-- the partition the property's key rule prescribes, when it prescribes one. -/
+def ruleFormula : KeyRule → List UInt8 → Int → Option Int
+  | .kafkaDefault, k, n => some (kafkaPartition k n)
+  | .saramaFnv, k, n => some (saramaPartition (fnv1a32 k) n)
+  | .unsignedFnv, k, n => some (unsignedPartition (fnv1a32 k) n)
+  | .consistentOnly, _, _ => none
+
+/-- the configured hasher computes the rule's formula. -/
+def RuleOk (k : PKind) (rule : KeyRule) : Prop :=
+  ∀ key n f, 1 ≤ n → n ≤ 2147483647 → ruleFormula rule key n = some f → kindHasher k key n = some f
+
+/-- a keyed call returns what the hasher returns. -/
+theorem part_keyed (k : PKind) (s s' : PState) (r : Rec) (n p : Int) (it : Iter) (draws : List Nat) (key : List UInt8)
+    (e : k.partitionN s r n it draws = .ok s' p) (hkey : k.obsKey r = some key) : kindHasher k key n = some p := by
+  cases k with
+  | roundRobin => simp [PKind.obsKey] at hkey
+  | sticky => simp [PKind.obsKey] at hkey
+  | leastBackup => simp [PKind.obsKey] at hkey
+  | stickyKey h =>
+    simp only [PKind.obsKey] at hkey
+    cases s with
+    | st s =>
+      simp only [PKind.partitionN, stickyKeyPartition, hkey] at e
+      simp only [kindHasher]
+      cases hh : h key n with
+      | none => simp [hh] at e
+      | some q => simp [hh] at e; rw [e.2]
+    | rr _ => simp [PKind.partitionN] at e
+    | lb _ => simp [PKind.partitionN] at e
+    | ub _ => simp [PKind.partitionN] at e
+  | uniformBytes c =>
+    simp only [PKind.obsKey] at hkey
+    cases s with
+    | ub s =>
+      simp only [PKind.partitionN, UB.partitionByBackup, hkey] at e
+      simp only [kindHasher]
+      cases hh : c.hasher key n with
+      | none => simp [hh] at e
+      | some q => simp [hh] at e; rw [e.2]
+    | rr _ => simp [PKind.partitionN] at e
+    | lb _ => simp [PKind.partitionN] at e
+    | st _ => simp [PKind.partitionN] at e
+
+def toObs (t : Option (List UInt8) × Int × Int) : Obs := ⟨t.1, t.2.1, t.2.2⟩
+
+theorem run_ok (k : PKind) (hk : KindOk k) (rule : KeyRule) (hr : RuleOk k rule) :
+    ∀ (ops : List Op) (s : PState) (earlier : List Obs), Inv k s → (∀ op ∈ ops, OpValid k op) →
+    (∀ e ∈ earlier, ∀ key, e.key = some key → kindHasher k key e.n = some e.pick) →
+    ∃ picks, k.run s ops = some picks ∧ (∀ t ∈ picks, 0 ≤ t.2.2 ∧ t.2.2 < t.2.1) ∧
+      traceOk rule earlier (picks.map toObs) = true := by
   intro ops
   induction ops with
-  | nil => intro s _ _; exact ⟨[], rfl, by simp⟩
+  | nil => intro s _ _ _ _; exact ⟨[], rfl, by simp, rfl⟩
   | cons op ops ih =>
-    intro s hs hv
+    intro s earlier hs hv he
     have hv' : ∀ op ∈ ops, OpValid k op := fun o ho => hv o (List.mem_cons_of_mem _ ho)
     cases op with
     | newBatch =>
       rw [PKind.run]
-      exact ih _ (newBatch_inv k s hs) hv'
+      exact ih _ earlier (newBatch_inv k s hs) hv' he
     | part r n mapping draws =>
-      obtain ⟨s', p, e, i1, h0, h1⟩ := part_ok k s r n mapping draws hk hs (hv _ (List.mem_cons_self ..))
-      obtain ⟨picks, e2, hp⟩ := ih s' i1 hv'
-      refine ⟨(n, p) :: picks, ?_, ?_⟩
+      have hvo := hv _ (List.mem_cons_self ..)
+      obtain ⟨s', p, e, i1, h0, h1⟩ := part_ok k s r n mapping draws hk hs hvo
+      have hkeyed : ∀ key, k.obsKey r = some key → kindHasher k key n = some p :=
+        fun key hkey => part_keyed k s s' r n p _ draws key e hkey
+      have he' : ∀ e ∈ (⟨k.obsKey r, n, p⟩ : Obs) :: earlier, ∀ key, e.key = some key → kindHasher k key e.n = some e.pick := by
+        intro e' he'
+        rcases List.mem_cons.mp he' with rfl | he'
+        · exact hkeyed
+        · exact he e' he'
+      obtain ⟨picks, e2, hp, ht⟩ := ih s' (⟨k.obsKey r, n, p⟩ :: earlier) i1 hv' he'
+      refine ⟨(k.obsKey r, n, p) :: picks, ?_, ?_, ?_⟩
       · rw [PKind.run, e]; simp only [e2, Option.map_some]
-      · intro np hnp
-        rcases List.mem_cons.mp hnp with rfl | hnp
+      · intro t ht'
+        rcases List.mem_cons.mp ht' with rfl | ht'
         · exact ⟨h0, h1⟩
-        · exact hp np hnp
+        · exact hp t ht'
+      · simp only [List.map_cons, traceOk, toObs, Bool.and_eq_true]
+        refine ⟨?_, ht⟩
+        simp only [obsOk, inRange, Bool.and_eq_true, decide_eq_true_eq]
+        refine ⟨⟨h0, h1⟩, ?_⟩
+        cases hkey : k.obsKey r with
+        | none => rfl
+        | some key =>
+          have hp' := hkeyed key hkey
+          simp only [Bool.and_eq_true, List.all_eq_true]
+          constructor
+          · intro e' hm
+            by_cases hc : (e'.key == some key && e'.n == n) = true
+            · simp only [Bool.and_eq_true, beq_iff_eq] at hc
+              have := he e' hm key hc.1
+              rw [hc.2, hp'] at this
+              simp [hc.1, hc.2, Option.some.inj this]
+            · simp [hc]
+          · have hn := hvo.1; have hn2 := hvo.2.1
+            cases rule with
+            | consistentOnly => rfl
+            | kafkaDefault =>
+              have := hr key n _ hn hn2 rfl
+              rw [hp'] at this
+              simp [Option.some.inj this]
+            | saramaFnv =>
+              have := hr key n _ hn hn2 rfl
+              rw [hp'] at this
+              simp [Option.some.inj this]
+            | unsignedFnv =>
+              have := hr key n _ hn hn2 rfl
+              rw [hp'] at this
+              simp [Option.some.inj this]
+
+theorem fnv_step (h : BitVec 32) (b : UInt8) :
+    ((h ^^^ u32 b) * 16777619#32).toNat = ((h.toNat ^^^ b.toNat) * 16777619) % 4294967296 := by
+  rw [BitVec.toNat_mul, BitVec.toNat_xor, toNat_u32]; rfl
+
+theorem fnv_fold (data : List UInt8) : ∀ h : BitVec 32,
+    (data.foldl (fun h b => (h ^^^ u32 b) * 16777619#32) h).toNat =
+    data.foldl (fun h b => ((h ^^^ b.toNat) * 16777619) % 4294967296) h.toNat := by
+  induction data with
+  | nil => intro h; rfl
+  | cons b rest ih => intro h; rw [List.foldl_cons, List.foldl_cons, ih, fnv_step]
+
+/-- the model's FNV-1a (BitVec) is the Spec's (Nat with explicit mod). -/
+theorem fnv_eq (data : List UInt8) : (fnv32a data).toNat = fnv1a32 data := by
+  unfold fnv32a fnv1a32
+  rw [fnv_fold]; rfl
+
+theorem ruleOk_consistentOnly (k : PKind) : RuleOk k .consistentOnly := by
+  intro key n f _ _ h; simp [ruleFormula] at h
 
 end Proof.C28
